@@ -1,4 +1,5 @@
 """C09 -- datagram sockets preserve message boundaries, order and addressing."""
+import os
 from checks.netcommon import *
 
 
@@ -19,6 +20,20 @@ def run(tier, vd):
     validate_report(vd, "C09", files, {"seed": sd})
     vd.cov["samples"].append({"kind": "neigh world: datagrams queued behind neighbor discovery, tiny ring capacities", "events": [e for e in split_runs(files[0])[1] if e.get("ev") == "api"][:10]})
 
+    # datagrams that need the fragmentation buffer (several sockets, back to back, sizes around the IP / link MTU, device
+    # back-pressure): transmitted completely and exactly once (F5), unaltered (F2), delivered as sent (F3)
+    exe = build_harness()
+    ff = []
+    for k in range(2 if tier == "quick" else 8):
+        tf = os.path.join(OUT, "traces", "c09.frag.%d.ndjson" % k)
+        run_harness(exe, ["frag-random", "--seed", sd * 100 + 30 + k, "--runs", 200 if tier == "quick" else 1000, "--out", tf])
+        ff.append(tf)
+    rf = validate_traces("FragTrace", ff, parallel=8)
+    vd.add_validation(rf)
+    rfb = dict(rf)
+    rfb["viol"] = [v for v in rf["viol"] if v["rule"] in ("F2", "F3", "F5", "PANIC")]
+    report_viols(vd, "C09", rfb, {"world": "frag", "seed": sd}, lambda v: {"rule": v["rule"], "world": "frag"}, lambda v: "frag %s %s" % (v["rule"], v["p"]))
+
     def mut(e):
         if e.get("ev") == "api" and e.get("call") == "recv" and e.get("err") == "none":
             e["size"] += 1
@@ -26,11 +41,15 @@ def run(tier, vd):
         return False
     canary_check(vd, "NeighTrace", files[0], mut, "D5", "c09.D5", max_runs=150)
     vd.cov["exhaustive"] = True
-    vd.assumptions += ["UDP sockets over IPv4/Ethernet (ICMP and raw sockets share PacketBuffer and dequeue_with; their wire behaviour is covered by C12's echo traffic only)",
+    vd.assumptions += ["UDP, ICMP (identifier-bound) and raw sockets over IPv4 / ARP and IPv6 / neighbour discovery on Ethernet; fragmented datagrams through the frag world (raw IP and Ethernet)",
                        "D3 is demanded of a datagram only while every earlier datagram of the same socket was resolvable (queue order)",
                        "D5 delivery is mandatory only when the receive queue was empty and the datagram fits (C14's EmptyAccepts); otherwise either outcome is accepted"]
 
 
 def replay(obj, vd):
+    if obj.get("ctx", {}).get("world") == "frag":
+        from checks import c12
+        c12.replay(obj, vd)
+        return
     from checks.netcommon import replay as rp
     rp(obj, vd, "C09")
